@@ -138,6 +138,11 @@ class Model:
     def dep_state(self, d, v, ctx, memo):
         """Contribution of a recorded dependency d (version v seen at the dependent's last build)."""
         if self.ver(d) != v:
+            if d in self.R and self.R[d].owner == 'user' and self.R[d].stamped and not self.R[d].user_seen:
+                # a checksummed target that the user has overwritten and that redo has not looked at since: its record still
+                # carries the checksum, so the first look says "maybe changed" and it is "built" out of band (redo notices
+                # the foreign content there, skips it and drops the checksum); only then is the dependent definitely dirty.
+                return 'uncertain', 'dep-maybe-user:' + d
             return 'dirty', 'dep-changed:' + d
         if not self.is_target(d):
             return 'clean', None
@@ -186,6 +191,10 @@ class Model:
             if s != 'uncertain':
                 continue
             r = self.R[d]
+            if not self.is_target(d):
+                if d not in acc:
+                    acc.append(d)      # user-overwritten checksummed target (see dep_state)
+                continue
             own, _ = self.status(d, ctx, memo)
             if r.stamped and own == 'dirty':
                 if d not in acc:
